@@ -12,6 +12,8 @@ import pandas as pd
 
 from demeter import Broker, MarketStatus
 
+from . import siblings
+
 # attributes that are references to shared / immutable things and must not be deep-copied
 _SHARED = {"_data", "broker", "logger", "_record_action_callback", "_risk_parameters", "_squeeth_uni_pool", "open",
            "_pool", "pool", "pool_config", "token_config", "_market_info", "_network"}
@@ -76,6 +78,16 @@ class Ctx:
         row = self.prices.loc[ts]
         for a in self.adapters:
             a.market.set_market_status(MarketStatus(ts, None), row)
+        siblings.churn(ts, {a.kind for a in self.adapters}, hint=self._sibling_hint())  # other instances of the same market classes live in this process and are used in alternation (siblings.py)
+
+    def _sibling_hint(self):
+        for a in self.adapters:
+            if a.kind == "uni":
+                try:
+                    return {"uni_price": a.market.market_status.data.price}
+                except Exception:  # noqa: BLE001
+                    return None
+        return None
 
     def end_bar(self):
         ts = self.index[self.bar]
@@ -230,6 +242,8 @@ def apply(ctx: Ctx, op: Op) -> Outcome:
         return Outcome(True, None, ret)
     except REJECTIONS as e:
         return Outcome(False, (type(e).__name__, str(getattr(e, "message", e))[:100]), None)
+    finally:
+        siblings.churn(ctx.index[ctx.bar] if ctx.bar is not None else None, {a.kind for a in ctx.adapters}, stride=5, hint=ctx._sibling_hint())
 
 
 def explore(build, alphabet, depth, max_dev, on_transition, on_state=None, part=None, roots=((),), dedup=True, first=None):
